@@ -86,8 +86,12 @@ pub fn liq_ratio(w: &World, obs: &Obs, v: usize, pr: &PosRef) -> Option<(S, bool
         return None;
     }
     let mut r = ratio(pr.equity(&pn), n, d);
-    let oracle: Uint128 = w.query(&w.vamms[v], &vamm::QueryMsg::UnderlyingPrice {}).ok()?;
-    let oracle = oracle.u128();
+    // the oracle's latest price: the vAMM's own answer, or (when the vAMM cannot read its feed) the last
+    // price the harness submitted to that feed
+    let oracle = match w.query::<Uint128, _>(&w.vamms[v], &vamm::QueryMsg::UnderlyingPrice {}) {
+        Ok(o) => o.u128(),
+        Err(_) => w.oracle_model[v],
+    };
     if oracle == 0 {
         return None;
     }
